@@ -1,0 +1,792 @@
+//! Scripted transport and a thin façade over the real `TransportManager` for the `/verif` harness.
+//!
+//! The manager, connection limits, peer state, address store, protocol set and transport services
+//! are the real ones. The only fake is [`ScriptedTransport`]: it records every call the manager
+//! makes and emits only the events the harness injects. `accept()` is `TcpTransport::accept`
+//! without spawning the socket loop: it builds the real `ProtocolSet`, calls the real
+//! `report_connection_established` and keeps the `ProtocolSet` so that the harness can play the
+//! connection (read protocol commands, report substreams, report the connection closed).
+
+use crate::{
+    codec::ProtocolCodec,
+    crypto::ed25519::Keypair,
+    error::{AddressError, DialError, NegotiationError, SubstreamError},
+    executor::DefaultExecutor,
+    protocol::{
+        Direction, InnerTransportEvent, ProtocolCommand, ProtocolSet, SubstreamKeepAlive,
+        TransportService,
+    },
+    substream::Substream,
+    transport::{
+        manager::{
+            limits::ConnectionLimitsConfig, SupportedTransport, TransportHandle, TransportManager,
+            TransportManagerBuilder,
+        },
+        Endpoint, Transport, TransportEvent,
+    },
+    types::{protocol::ProtocolName, ConnectionId, SubstreamId},
+    PeerId,
+};
+
+use futures::{future::BoxFuture, FutureExt, Stream, StreamExt};
+use multiaddr::Multiaddr;
+use parking_lot::Mutex;
+
+use std::{
+    collections::{HashMap, VecDeque},
+    pin::Pin,
+    sync::Arc,
+    task::{Context, Poll, Waker},
+    time::Duration,
+};
+
+/// A call the manager made on the transport.
+#[derive(Debug, Clone, PartialEq)]
+pub enum Call {
+    Dial {
+        id: usize,
+        address: Multiaddr,
+    },
+    Open {
+        id: usize,
+        addresses: Vec<Multiaddr>,
+    },
+    Negotiate {
+        id: usize,
+    },
+    Cancel {
+        id: usize,
+    },
+    Accept {
+        id: usize,
+    },
+    Reject {
+        id: usize,
+    },
+    AcceptPending {
+        id: usize,
+    },
+    RejectPending {
+        id: usize,
+    },
+}
+
+/// Dial error kinds the harness can inject.
+#[derive(Debug, Clone, Copy, PartialEq)]
+pub enum ErrKind {
+    Timeout,
+    AddressError,
+    Refused,
+    PeerIdMismatch,
+}
+
+impl ErrKind {
+    fn to_error(self) -> DialError {
+        match self {
+            ErrKind::Timeout => DialError::Timeout,
+            ErrKind::AddressError => DialError::AddressError(AddressError::InvalidProtocol),
+            ErrKind::Refused => DialError::NegotiationError(NegotiationError::IoError(
+                std::io::ErrorKind::ConnectionRefused,
+            )),
+            ErrKind::PeerIdMismatch => DialError::NegotiationError(
+                NegotiationError::PeerIdMismatch(PeerId::random(), PeerId::random()),
+            ),
+        }
+    }
+}
+
+/// An event the harness makes the transport emit.
+#[derive(Debug, Clone)]
+pub enum Inject {
+    Established {
+        peer: PeerId,
+        address: Multiaddr,
+        id: usize,
+        listener: bool,
+    },
+    PendingInbound {
+        id: usize,
+    },
+    Opened {
+        id: usize,
+        address: Multiaddr,
+        errors: Vec<(Multiaddr, ErrKind)>,
+    },
+    DialFailure {
+        id: usize,
+        address: Multiaddr,
+        error: ErrKind,
+    },
+    OpenFailure {
+        id: usize,
+        errors: Vec<(Multiaddr, ErrKind)>,
+    },
+}
+
+struct LiveConnection {
+    peer: PeerId,
+    protocol_set: ProtocolSet,
+}
+
+#[derive(Default)]
+struct Shared {
+    calls: Vec<Call>,
+    events: VecDeque<TransportEvent>,
+    waker: Option<Waker>,
+    /// established connections waiting for accept/reject
+    pending_open: HashMap<usize, (PeerId, Endpoint)>,
+    /// accepted connections whose protocols were notified
+    live: HashMap<usize, LiveConnection>,
+    /// results of accept futures: (id, ok)
+    accept_results: Vec<(usize, bool)>,
+    /// make the next `accept()` call itself return an error
+    fail_next_accept_call: bool,
+}
+
+/// The fake transport registered with the real manager.
+pub(crate) struct ScriptedTransport {
+    context: TransportHandle,
+    shared: Arc<Mutex<Shared>>,
+}
+
+impl Transport for ScriptedTransport {
+    fn dial(&mut self, connection_id: ConnectionId, address: Multiaddr) -> crate::Result<()> {
+        self.shared.lock().calls.push(Call::Dial {
+            id: connection_id.verif_raw(),
+            address,
+        });
+        Ok(())
+    }
+
+    fn accept(
+        &mut self,
+        connection_id: ConnectionId,
+    ) -> crate::Result<BoxFuture<'static, crate::Result<()>>> {
+        let id = connection_id.verif_raw();
+        let mut shared = self.shared.lock();
+        shared.calls.push(Call::Accept { id });
+        if std::mem::take(&mut shared.fail_next_accept_call) {
+            shared.pending_open.remove(&id);
+            return Err(crate::Error::ConnectionDoesntExist(connection_id));
+        }
+        let (peer, endpoint) = shared
+            .pending_open
+            .remove(&id)
+            .ok_or(crate::Error::ConnectionDoesntExist(connection_id))?;
+        drop(shared);
+
+        let mut protocol_set = self.context.protocol_set(connection_id);
+        let shared = self.shared.clone();
+
+        Ok(Box::pin(async move {
+            let result = protocol_set.report_connection_established(peer, endpoint).await;
+            let mut shared = shared.lock();
+            shared.accept_results.push((id, result.is_ok()));
+            if result.is_ok() {
+                shared.live.insert(id, LiveConnection { peer, protocol_set });
+            }
+            result
+        }))
+    }
+
+    fn accept_pending(&mut self, connection_id: ConnectionId) -> crate::Result<()> {
+        self.shared.lock().calls.push(Call::AcceptPending {
+            id: connection_id.verif_raw(),
+        });
+        Ok(())
+    }
+
+    fn reject_pending(&mut self, connection_id: ConnectionId) -> crate::Result<()> {
+        self.shared.lock().calls.push(Call::RejectPending {
+            id: connection_id.verif_raw(),
+        });
+        Ok(())
+    }
+
+    fn reject(&mut self, connection_id: ConnectionId) -> crate::Result<()> {
+        let id = connection_id.verif_raw();
+        let mut shared = self.shared.lock();
+        shared.calls.push(Call::Reject { id });
+        shared.pending_open.remove(&id).map_or(
+            Err(crate::Error::ConnectionDoesntExist(connection_id)),
+            |_| Ok(()),
+        )
+    }
+
+    fn open(
+        &mut self,
+        connection_id: ConnectionId,
+        addresses: Vec<Multiaddr>,
+    ) -> crate::Result<()> {
+        self.shared.lock().calls.push(Call::Open {
+            id: connection_id.verif_raw(),
+            addresses,
+        });
+        Ok(())
+    }
+
+    fn negotiate(&mut self, connection_id: ConnectionId) -> crate::Result<()> {
+        self.shared.lock().calls.push(Call::Negotiate {
+            id: connection_id.verif_raw(),
+        });
+        Ok(())
+    }
+
+    fn cancel(&mut self, connection_id: ConnectionId) {
+        self.shared.lock().calls.push(Call::Cancel {
+            id: connection_id.verif_raw(),
+        });
+    }
+}
+
+impl Stream for ScriptedTransport {
+    type Item = TransportEvent;
+
+    fn poll_next(self: Pin<&mut Self>, cx: &mut Context<'_>) -> Poll<Option<Self::Item>> {
+        let mut shared = self.shared.lock();
+        match shared.events.pop_front() {
+            Some(event) => Poll::Ready(Some(event)),
+            None => {
+                shared.waker = Some(cx.waker().clone());
+                Poll::Pending
+            }
+        }
+    }
+}
+
+/// What the manager reported from `next()`.
+#[derive(Debug, Clone)]
+pub enum MgrEvent {
+    Established {
+        peer: PeerId,
+        id: usize,
+        listener: bool,
+        address: Multiaddr,
+    },
+    Closed {
+        peer: PeerId,
+        id: usize,
+    },
+    DialFailure {
+        id: usize,
+        address: Multiaddr,
+    },
+    OpenFailure {
+        id: usize,
+        addresses: Vec<Multiaddr>,
+    },
+    Other(String),
+}
+
+/// Read-only view of a peer's state in the manager.
+#[derive(Debug, Clone, PartialEq)]
+pub struct PeerStateView {
+    pub kind: &'static str,
+    pub primary: Option<usize>,
+    pub secondary: Option<usize>,
+    pub dialing: Option<usize>,
+}
+
+/// What a connection (played by the harness) reads from its protocols.
+#[derive(Debug, Clone)]
+pub enum ConnCommand {
+    OpenSubstream {
+        protocol: ProtocolName,
+        substream_id: usize,
+        connection_id: usize,
+    },
+    ForceClose,
+    /// every protocol dropped its (active) handle: a real connection would now close as idle
+    AllHandlesDropped,
+}
+
+/// Real manager + scripted transport.
+pub struct VerifManager {
+    manager: TransportManager,
+    shared: Arc<Mutex<Shared>>,
+    next_connection_id: Arc<std::sync::atomic::AtomicUsize>,
+    /// permits of substream-open requests the connection has read but not answered
+    open_requests: HashMap<usize, (ProtocolName, crate::protocol::Permit)>,
+}
+
+impl VerifManager {
+    /// Builds the manager, registers `protocols` (name, keep-alive) with the given keep-alive timeout and then the
+    /// scripted transport (as `SupportedTransport::Tcp`), in the order `Litep2p::new` uses.
+    pub fn new(
+        keypair: Keypair,
+        max_incoming: Option<usize>,
+        max_outgoing: Option<usize>,
+        protocols: Vec<(ProtocolName, bool)>,
+        keep_alive_timeout: Duration,
+    ) -> (Self, Vec<TransportService>) {
+        let limits = ConnectionLimitsConfig::default()
+            .max_incoming_connections(max_incoming)
+            .max_outgoing_connections(max_outgoing);
+        let mut manager = TransportManagerBuilder::new()
+            .with_keypair(keypair)
+            .with_supported_transports([SupportedTransport::Tcp].into_iter().collect())
+            .with_connection_limits_config(limits)
+            .build();
+        let services = protocols
+            .into_iter()
+            .map(|(name, keep_alive)| {
+                manager.register_protocol(
+                    name,
+                    Vec::new(),
+                    ProtocolCodec::UnsignedVarint(Some(1024 * 1024)),
+                    keep_alive_timeout,
+                    if keep_alive {
+                        SubstreamKeepAlive::Yes
+                    } else {
+                        SubstreamKeepAlive::No
+                    },
+                )
+            })
+            .collect();
+        let context = manager.transport_handle(Arc::new(DefaultExecutor {}));
+        let next_connection_id = context.next_connection_id.clone();
+        let shared = Arc::new(Mutex::new(Shared::default()));
+        manager.register_transport(
+            SupportedTransport::Tcp,
+            Box::new(ScriptedTransport {
+                context,
+                shared: shared.clone(),
+            }),
+        );
+        (
+            Self {
+                manager,
+                shared,
+                next_connection_id,
+                open_requests: HashMap::new(),
+            },
+            services,
+        )
+    }
+
+    pub fn local_peer_id(&self) -> PeerId {
+        self.manager.verif_local_peer_id()
+    }
+
+    pub fn register_listen_address(&mut self, address: Multiaddr) {
+        self.manager.register_listen_address(address);
+    }
+
+    pub fn add_known_address(&mut self, peer: PeerId, addresses: Vec<Multiaddr>) -> usize {
+        self.manager.add_known_address(peer, addresses.into_iter())
+    }
+
+    pub fn dial(&mut self, peer: PeerId) -> Result<(), String> {
+        self.manager
+            .dial(peer)
+            .now_or_never()
+            .expect("dial never awaits")
+            .map_err(|error| format!("{error:?}"))
+    }
+
+    pub fn dial_address(&mut self, address: Multiaddr) -> Result<(), String> {
+        self.manager
+            .dial_address(address)
+            .now_or_never()
+            .expect("dial_address never awaits")
+            .map_err(|error| format!("{error:?}"))
+    }
+
+    /// Allocates a connection id from the counter shared with the manager (as a transport does for inbound sockets).
+    pub fn next_connection_id(&self) -> usize {
+        self.next_connection_id.fetch_add(1usize, std::sync::atomic::Ordering::Relaxed)
+    }
+
+    /// Makes the transport emit `event` on its next poll.
+    pub fn inject(&mut self, event: Inject) {
+        let mut shared = self.shared.lock();
+        let errs = |errors: Vec<(Multiaddr, ErrKind)>| {
+            errors
+                .into_iter()
+                .map(|(address, kind)| (address, kind.to_error()))
+                .collect::<Vec<_>>()
+        };
+        let event = match event {
+            Inject::Established {
+                peer,
+                address,
+                id,
+                listener,
+            } => {
+                let connection_id = ConnectionId::from(id);
+                let endpoint = if listener {
+                    Endpoint::listener(address, connection_id)
+                } else {
+                    Endpoint::dialer(address, connection_id)
+                };
+                shared.pending_open.insert(id, (peer, endpoint.clone()));
+                TransportEvent::ConnectionEstablished { peer, endpoint }
+            }
+            Inject::PendingInbound { id } => TransportEvent::PendingInboundConnection {
+                connection_id: ConnectionId::from(id),
+            },
+            Inject::Opened {
+                id,
+                address,
+                errors,
+            } => TransportEvent::ConnectionOpened {
+                connection_id: ConnectionId::from(id),
+                address,
+                errors: errs(errors),
+            },
+            Inject::DialFailure { id, address, error } => TransportEvent::DialFailure {
+                connection_id: ConnectionId::from(id),
+                address,
+                error: error.to_error(),
+            },
+            Inject::OpenFailure { id, errors } => TransportEvent::OpenFailure {
+                connection_id: ConnectionId::from(id),
+                errors: errs(errors),
+            },
+        };
+        shared.events.push_back(event);
+        if let Some(waker) = shared.waker.take() {
+            waker.wake();
+        }
+    }
+
+    pub fn fail_next_accept_call(&mut self) {
+        self.shared.lock().fail_next_accept_call = true;
+    }
+
+    /// Polls `TransportManager::next()` until it is pending; returns what it reported.
+    pub fn poll(&mut self) -> Vec<MgrEvent> {
+        let mut out = Vec::new();
+        for _ in 0..10_000 {
+            let event = match self.manager.next().now_or_never() {
+                Some(Some(event)) => event,
+                _ => break,
+            };
+            out.push(match event {
+                TransportEvent::ConnectionEstablished { peer, endpoint } => MgrEvent::Established {
+                    peer,
+                    id: endpoint.connection_id().verif_raw(),
+                    listener: endpoint.is_listener(),
+                    address: endpoint.address().clone(),
+                },
+                TransportEvent::ConnectionClosed {
+                    peer,
+                    connection_id,
+                } => MgrEvent::Closed {
+                    peer,
+                    id: connection_id.verif_raw(),
+                },
+                TransportEvent::DialFailure {
+                    connection_id,
+                    address,
+                    ..
+                } => MgrEvent::DialFailure {
+                    id: connection_id.verif_raw(),
+                    address,
+                },
+                TransportEvent::OpenFailure {
+                    connection_id,
+                    errors,
+                } => MgrEvent::OpenFailure {
+                    id: connection_id.verif_raw(),
+                    addresses: errors.into_iter().map(|(address, _)| address).collect(),
+                },
+                other => MgrEvent::Other(format!("{other:?}")),
+            });
+        }
+        out
+    }
+
+    pub fn take_calls(&mut self) -> Vec<Call> {
+        std::mem::take(&mut self.shared.lock().calls)
+    }
+
+    pub fn take_accept_results(&mut self) -> Vec<(usize, bool)> {
+        std::mem::take(&mut self.shared.lock().accept_results)
+    }
+
+    /// Connections that were accepted, whose protocols were notified and that were not closed yet.
+    pub fn live_connections(&self) -> Vec<(usize, PeerId)> {
+        let shared = self.shared.lock();
+        let mut live = shared.live.iter().map(|(id, c)| (*id, c.peer)).collect::<Vec<_>>();
+        live.sort_by_key(|(id, _)| *id);
+        live
+    }
+
+    /// The connection ends: the real `report_connection_closed` runs (protocols first, then the manager).
+    pub fn close_connection(&mut self, id: usize) -> Result<(), String> {
+        let connection = self.shared.lock().live.remove(&id).ok_or("no such live connection")?;
+        self.open_requests.retain(|_, _| true);
+        let LiveConnection {
+            peer,
+            mut protocol_set,
+        } = connection;
+        let result = protocol_set
+            .report_connection_closed(peer, ConnectionId::from(id))
+            .now_or_never()
+            .ok_or("report_connection_closed is blocked on a full channel")?;
+        result.map_err(|error| format!("{error:?}"))
+    }
+
+    /// Reads the next command the protocols sent to connection `id`.
+    pub fn poll_connection(&mut self, id: usize) -> Option<ConnCommand> {
+        let mut shared = self.shared.lock();
+        let connection = shared.live.get_mut(&id)?;
+        match connection.protocol_set.next().now_or_never() {
+            None => None,
+            Some(None) => Some(ConnCommand::AllHandlesDropped),
+            Some(Some(ProtocolCommand::ForceClose)) => Some(ConnCommand::ForceClose),
+            Some(Some(ProtocolCommand::OpenSubstream {
+                protocol,
+                substream_id,
+                connection_id,
+                permit,
+                ..
+            })) => {
+                let raw = substream_id.verif_raw();
+                self.open_requests.insert(raw, (protocol.clone(), permit));
+                Some(ConnCommand::OpenSubstream {
+                    protocol,
+                    substream_id: raw,
+                    connection_id: connection_id.verif_raw(),
+                })
+            }
+        }
+    }
+
+    /// Answers a substream-open request with a failure carrying `substream_id`.
+    pub fn answer_open_failure(&mut self, id: usize, substream_id: usize) -> Result<(), String> {
+        let (protocol, _permit) =
+            self.open_requests.remove(&substream_id).ok_or("no such open request")?;
+        let mut shared = self.shared.lock();
+        let connection = shared.live.get_mut(&id).ok_or("no such live connection")?;
+        connection
+            .protocol_set
+            .report_substream_open_failure(
+                protocol,
+                SubstreamId::from(substream_id),
+                SubstreamError::NegotiationError(NegotiationError::Timeout),
+            )
+            .now_or_never()
+            .ok_or("blocked on a full channel")?
+            .map_err(|error| format!("{error:?}"))
+    }
+
+    /// Answers a substream-open request with an opened substream built from `stream`.
+    pub fn answer_open_success(
+        &mut self,
+        id: usize,
+        substream_id: usize,
+        stream: crate::yamux::Stream,
+    ) -> Result<(), String> {
+        let (protocol, permit) =
+            self.open_requests.remove(&substream_id).ok_or("no such open request")?;
+        let mut shared = self.shared.lock();
+        let connection = shared.live.get_mut(&id).ok_or("no such live connection")?;
+        let peer = connection.peer;
+        let codec = connection.protocol_set.protocol_codec(&protocol);
+        let substream = super::substream::substream_from_yamux(
+            peer,
+            SubstreamId::from(substream_id),
+            stream,
+            codec,
+        );
+        connection
+            .protocol_set
+            .report_substream_open(
+                peer,
+                protocol,
+                Direction::Outbound(SubstreamId::from(substream_id)),
+                substream,
+                permit,
+            )
+            .now_or_never()
+            .ok_or("blocked on a full channel")?
+            .map_err(|error| format!("{error:?}"))
+    }
+
+    /// Reports an inbound substream for `protocol` on connection `id`.
+    pub fn report_inbound_substream(
+        &mut self,
+        id: usize,
+        protocol: ProtocolName,
+        stream: crate::yamux::Stream,
+    ) -> Result<(), String> {
+        let mut shared = self.shared.lock();
+        let connection = shared.live.get_mut(&id).ok_or("no such live connection")?;
+        let peer = connection.peer;
+        let permit = connection.protocol_set.try_get_permit().ok_or("no permit")?;
+        let codec = connection.protocol_set.protocol_codec(&protocol);
+        let substream =
+            super::substream::substream_from_yamux(peer, SubstreamId::from(0usize), stream, codec);
+        connection
+            .protocol_set
+            .report_substream_open(peer, protocol, Direction::Inbound, substream, permit)
+            .now_or_never()
+            .ok_or("blocked on a full channel")?
+            .map_err(|error| format!("{error:?}"))
+    }
+
+    pub fn peer_state(&self, peer: &PeerId) -> Option<PeerStateView> {
+        self.manager.verif_peer_state(peer)
+    }
+
+    pub fn peer_addresses(&self, peer: &PeerId) -> Vec<(Multiaddr, i32)> {
+        self.manager.verif_peer_addresses(peer)
+    }
+
+    pub fn pending_connections(&self) -> Vec<(usize, PeerId)> {
+        self.manager.verif_pending_connections()
+    }
+
+    /// `(incoming, outgoing)` connections counted against the limits.
+    pub fn connection_counts(&self) -> (usize, usize) {
+        self.manager.verif_connection_counts()
+    }
+}
+
+/// A protocol registered with the raw event channel (for per-connection accounting).
+pub struct RawProtocol {
+    rx: tokio::sync::mpsc::Receiver<InnerTransportEvent>,
+}
+
+/// View of the events a protocol channel carries.
+#[derive(Debug, Clone)]
+pub enum ProtoEvent {
+    Established {
+        peer: PeerId,
+        id: usize,
+    },
+    Closed {
+        peer: PeerId,
+        id: usize,
+    },
+    DialFailure {
+        peer: PeerId,
+        addresses: Vec<Multiaddr>,
+    },
+    SubstreamOpened {
+        peer: PeerId,
+        id: usize,
+    },
+    SubstreamOpenFailure {
+        substream_id: usize,
+    },
+}
+
+impl RawProtocol {
+    pub fn try_next(&mut self) -> Option<ProtoEvent> {
+        match self.rx.try_recv().ok()? {
+            InnerTransportEvent::ConnectionEstablished {
+                peer, connection, ..
+            } => Some(ProtoEvent::Established {
+                peer,
+                id: connection.verif_raw(),
+            }),
+            InnerTransportEvent::ConnectionClosed { peer, connection } => {
+                Some(ProtoEvent::Closed {
+                    peer,
+                    id: connection.verif_raw(),
+                })
+            }
+            InnerTransportEvent::DialFailure { peer, addresses } => {
+                Some(ProtoEvent::DialFailure { peer, addresses })
+            }
+            InnerTransportEvent::SubstreamOpened {
+                peer,
+                connection_id,
+                ..
+            } => Some(ProtoEvent::SubstreamOpened {
+                peer,
+                id: connection_id.verif_raw(),
+            }),
+            InnerTransportEvent::SubstreamOpenFailure { substream, .. } => {
+                Some(ProtoEvent::SubstreamOpenFailure {
+                    substream_id: substream.verif_raw(),
+                })
+            }
+        }
+    }
+
+    /// Closes the channel as a protocol that shut down does.
+    pub fn close(&mut self) {
+        self.rx.close();
+    }
+}
+
+/// Builds a transport handle + protocol set directly (no manager): per-connection accounting of
+/// `report_connection_established` / `report_connection_closed` over raw channels.
+pub struct RawConnectionFixture {
+    pub protocols: Vec<RawProtocol>,
+    manager_rx: tokio::sync::mpsc::Receiver<crate::transport::manager::TransportManagerEvent>,
+    handle: TransportHandle,
+    sets: HashMap<usize, (PeerId, ProtocolSet)>,
+}
+
+impl RawConnectionFixture {
+    pub fn new(n_protocols: usize, channel_size: usize) -> Self {
+        let (manager_tx, manager_rx) = tokio::sync::mpsc::channel(4096);
+        let mut protocols = HashMap::new();
+        let mut raws = Vec::new();
+        for i in 0..n_protocols {
+            let (tx, rx) = tokio::sync::mpsc::channel(channel_size);
+            protocols.insert(
+                ProtocolName::from(format!("/raw/{i}")),
+                crate::transport::manager::ProtocolContext {
+                    tx,
+                    codec: ProtocolCodec::UnsignedVarint(None),
+                    fallback_names: Vec::new(),
+                    keep_alive: SubstreamKeepAlive::Yes,
+                },
+            );
+            raws.push((format!("/raw/{i}"), RawProtocol { rx }));
+        }
+        raws.sort_by(|a, b| a.0.cmp(&b.0));
+        let handle = TransportHandle {
+            executor: Arc::new(DefaultExecutor {}),
+            next_substream_id: Default::default(),
+            next_connection_id: Default::default(),
+            keypair: Keypair::generate(),
+            tx: manager_tx,
+            bandwidth_sink: crate::BandwidthSink::new(),
+            protocols,
+        };
+        Self {
+            protocols: raws.into_iter().map(|(_, p)| p).collect(),
+            manager_rx,
+            handle,
+            sets: HashMap::new(),
+        }
+    }
+
+    /// `report_connection_established`; `None` if a channel is full (future not ready).
+    pub fn establish(&mut self, id: usize, peer: PeerId) -> Option<Result<(), String>> {
+        let mut set = self.handle.protocol_set(ConnectionId::from(id));
+        let endpoint = Endpoint::listener(Multiaddr::empty(), ConnectionId::from(id));
+        let result = set.report_connection_established(peer, endpoint).now_or_never()?;
+        if result.is_ok() {
+            self.sets.insert(id, (peer, set));
+        }
+        Some(result.map_err(|error| format!("{error:?}")))
+    }
+
+    /// `report_connection_closed`; `None` if a channel is full (future not ready).
+    pub fn close(&mut self, id: usize) -> Option<Result<(), String>> {
+        let (peer, mut set) = self.sets.remove(&id)?;
+        let result = set.report_connection_closed(peer, ConnectionId::from(id)).now_or_never()?;
+        Some(result.map_err(|error| format!("{error:?}")))
+    }
+
+    /// Connection-closed notices the manager channel received.
+    pub fn manager_closed(&mut self) -> Vec<(PeerId, usize)> {
+        let mut out = Vec::new();
+        while let Ok(crate::transport::manager::TransportManagerEvent::ConnectionClosed {
+            peer,
+            connection,
+        }) = self.manager_rx.try_recv()
+        {
+            out.push((peer, connection.verif_raw()));
+        }
+        out
+    }
+}
